@@ -1,68 +1,99 @@
-(* C01 (history form) - per queue object: placed = released + still held, as multisets of message identities.
-   Only statements: each closed by `exact <lemma>` + Print Assumptions.  PARTIAL: the per-step and per-run theorems
-   cover the labels of [covered] (see Proofs/BrokerConserve.v); the names say so. *)
+(* C01 (history form) - no accepted message is lost while the broker runs: per queue object (identified by its id),
+   placed = released + still held, as multisets of message identities, for EVERY label of the broker LTS and along every
+   run from the initial state.
+     held s qid           = the messages waiting in the queue object qid ++ those delivered from it and not yet settled
+     placed cfg fx s l qid   = what step l puts into qid: a publish that completes (LHeader / LBody) and routes there; what a
+                            restart recovers from the store
+     released cfg fx s l qid = what legitimately leaves at step l: ack, nack/reject without requeue, no-ack delivery and get,
+                            purge, deletion of the queue object (queue.delete, exclusive queues of an ending connection,
+                            auto-delete), deliveries returned after their queue object is gone, restart
+   Both are explicit functions of the pre-state and the label (Proofs/BrokerConserve.v).
+   Only statements: each closed by `exact <lemma>` + Print Assumptions. *)
 From Coq Require Import List String NArith ZArith Bool Permutation.
 Import ListNotations.
 From GMQ Require Import Broker.Model Proofs.BrokerHeld Proofs.BrokerConserve.
 Open Scope N_scope.
 
-Theorem C01_step_conserves_partial :
-  forall cfg fx s l qid,
-    fx_stage fx = true -> fx_chan_open fx = true -> fx_closeok_releases fx = true ->
-    Inv s -> covered s l ->
-    Permutation (held (fst (step cfg fx s l)) qid ++ released cfg fx s l qid) (held s qid ++ placed cfg fx s l qid).
-Proof. exact step_conserves_partial. Qed.
-Print Assumptions C01_step_conserves_partial.
-
-Theorem C01_invariant_inductive_partial :
-  forall cfg fx s l,
-    fx_stage fx = true -> fx_chan_open fx = true -> fx_closeok_releases fx = true ->
-    Inv s -> covered s l -> Inv (fst (step cfg fx s l)).
-Proof. exact Inv_step_partial. Qed.
-Print Assumptions C01_invariant_inductive_partial.
-
+(* the invariant the proofs run on holds initially and is kept by every label *)
 Theorem C01_invariant_initially : forall cfg, Inv (init cfg).
 Proof. exact Inv_init. Qed.
 Print Assumptions C01_invariant_initially.
 
-Theorem C01_run_conserves_partial :
+Theorem C01_invariant_inductive :
+  forall cfg fx s l,
+    fx_stage fx = true -> fx_chan_open fx = true -> fx_closeok_releases fx = true -> fx_delete_checks_first fx = true ->
+    Inv s -> Inv (fst (step cfg fx s l)).
+Proof. exact Inv_step. Qed.
+Print Assumptions C01_invariant_inductive.
+
+(* every label, every queue object *)
+Theorem C01_step_conserves :
+  forall cfg fx s l qid,
+    fx_stage fx = true -> fx_chan_open fx = true -> fx_closeok_releases fx = true -> fx_delete_checks_first fx = true ->
+    Inv s ->
+    Permutation (held (fst (step cfg fx s l)) qid ++ released cfg fx s l qid) (held s qid ++ placed cfg fx s l qid).
+Proof. exact step_conserves. Qed.
+Print Assumptions C01_step_conserves.
+
+(* every run from the initial state: nothing but the fixes is assumed *)
+Theorem C01_run_conserves :
   forall cfg fx ls qid,
-    fx_stage fx = true -> fx_chan_open fx = true -> fx_closeok_releases fx = true ->
-    all_covered cfg fx (init cfg) ls ->
+    fx_stage fx = true -> fx_chan_open fx = true -> fx_closeok_releases fx = true -> fx_delete_checks_first fx = true ->
     Permutation (held (fst (run cfg fx (init cfg) ls)) qid ++ all_released cfg fx (init cfg) ls qid)
                 (all_placed cfg fx (init cfg) ls qid).
-Proof. exact run_conserves_partial. Qed.
-Print Assumptions C01_run_conserves_partial.
+Proof. exact run_conserves. Qed.
+Print Assumptions C01_run_conserves.
 
-Theorem C01_nothing_vanishes_in_between_partial :
-  forall cfg fx s l qid u,
-    fx_stage fx = true -> fx_chan_open fx = true -> fx_closeok_releases fx = true ->
-    Inv s -> covered s l -> released cfg fx s l qid = [] ->
-    In u (held s qid) -> In u (held (fst (step cfg fx s l)) qid).
-Proof. exact nothing_vanishes_in_between_partial. Qed.
-Print Assumptions C01_nothing_vanishes_in_between_partial.
+(* a label that is not settling (ack, nack/reject without requeue, no-ack get, purge, consumer turn, restart) releases
+   nothing from a queue object that still exists afterwards ... *)
+Theorem C01_released_nothing :
+  forall cfg fx,
+    fx_closeok_releases fx = true -> fx_delete_checks_first fx = true ->
+    forall s l qid, Inv s -> settling l = false -> queue_alive (fst (step cfg fx s l)) qid = true -> released cfg fx s l qid = [].
+Proof. exact released_nil_alive. Qed.
+Print Assumptions C01_released_nothing.
 
-(* the publish step, for any state satisfying the view invariant (not yet lifted to the labels LHeader / LBody) *)
-Theorem C01_publish_places :
-  forall fx s c h u m qid,
-    VI s -> get_msg s u = Some m ->
-    Permutation (held (fst (finish_publish fx s c h u)) qid ++ []) (held s qid ++ routed fx s u qid).
-Proof. intros fx s c h u m qid V Hm. exact (proj2 (Good_finish_publish fx s c h u m V Hm) qid). Qed.
-Print Assumptions C01_publish_places.
+(* ... so reject / nack with requeue, basic.cancel, channel.close, close-ok, connection close, socket loss, errors, queue
+   loop, persist tick, relay, confirm tick, flow, qos, ... keep every held message held *)
+Theorem C01_nothing_vanishes_in_between :
+  forall cfg fx,
+    fx_stage fx = true -> fx_chan_open fx = true -> fx_closeok_releases fx = true -> fx_delete_checks_first fx = true ->
+    forall s l qid u,
+      Inv s -> settling l = false -> In u (held s qid) -> queue_alive (fst (step cfg fx s l)) qid = true ->
+      In u (held (fst (step cfg fx s l)) qid).
+Proof. exact nothing_vanishes_in_between. Qed.
+Print Assumptions C01_nothing_vanishes_in_between.
 
-(* Non-vacuity: three messages published to queue "q" (object 1), consumed, one acked, the channel closed. *)
+(* a consumer turn of an ack-mode consumer releases nothing either (the message moves from waiting to unsettled) *)
+Theorem C01_ack_mode_turn_releases_nothing :
+  forall s c h tag ch cm qid,
+    get_chan s c h = Some ch -> find_consumer ch tag = Some cm -> c_noack cm = false ->
+    forall cfg fx, released cfg fx s (LConsumerTurn c h tag) qid = [].
+Proof. exact turn_released_ack. Qed.
+Print Assumptions C01_ack_mode_turn_releases_nothing.
+
+(* Non-vacuity.  Queue "q" is queue object 1.  Three messages published (header + body frames), consumed in ack mode, the
+   second acked; the channel closed (the other two go back); a fourth message published with an empty body (routed at
+   the header); a no-ack get settles the head; an ack-mode get takes the next one; the socket is lost (it goes back);
+   finally the queue is deleted from another connection (the rest is released). *)
 Example C01_history_example :
   let cfg := {| cfg_rabbit := true; cfg_rollback := true; cfg_release_first := false |} in
-  let pub k := [LMethod 1 1 (MPublish "" "q" false false); LHeader 1 1 k 3 false; LBody 1 1 3] in
-  let ls := [LConnect 1; LMethod 1 1 MChannelOpen; LMethod 1 1 (MQDeclare "q" false false false false false)]
-            ++ pub 11 ++ pub 12 ++ pub 13 ++
-            [LMethod 1 1 (MConsume "q" "t" false false false); LConsumerTurn 1 1 "t"; LConsumerTurn 1 1 "t"; LConsumerTurn 1 1 "t";
-             LMethod 1 1 (MAck 2 false)] in
-  let s := fst (run cfg all_fixed (init cfg) ls) in
-  all_placed cfg all_fixed (init cfg) ls 1 = [1; 2; 3] /\
-  all_released cfg all_fixed (init cfg) ls 1 = [2] /\
-  ready_of s 1 = [] /\ unacked_of s 1 = [1; 3] /\ held s 1 = [1; 3] /\
-  released cfg all_fixed s (LMethod 1 1 MChannelClose) 1 = [] /\
-  held (fst (step cfg all_fixed s (LMethod 1 1 MChannelClose))) 1 = [1; 3] /\
-  released cfg all_fixed (fst (step cfg all_fixed s (LMethod 1 1 MChannelClose))) (LMethod 1 1 (MQPurge "q" false)) 1 = [].
+  let pub h k := [LMethod 1 h (MPublish "" "q" false false); LHeader 1 h k 3 false; LBody 1 h 3] in
+  let ls1 := [LConnect 1; LMethod 1 1 MChannelOpen; LMethod 1 1 (MQDeclare "q" false false false false false)]
+             ++ pub 1 11 ++ pub 1 12 ++ pub 1 13 ++
+             [LMethod 1 1 (MConsume "q" "t" false false false); LConsumerTurn 1 1 "t"; LConsumerTurn 1 1 "t"; LConsumerTurn 1 1 "t";
+              LMethod 1 1 (MAck 2 false)] in
+  let ls2 := ls1 ++ [LMethod 1 1 MChannelClose; LMethod 1 2 MChannelOpen;
+                     LMethod 1 2 (MPublish "" "q" false false); LHeader 1 2 14 0 false;
+                     LMethod 1 2 (MGet "q" true); LMethod 1 2 (MGet "q" false); LSocketLoss 1] in
+  let ls3 := ls2 ++ [LConnect 2; LMethod 2 1 MChannelOpen; LMethod 2 1 (MQDelete "q" false false false)] in
+  let s1 := fst (run cfg all_fixed (init cfg) ls1) in
+  let s2 := fst (run cfg all_fixed (init cfg) ls2) in
+  let s3 := fst (run cfg all_fixed (init cfg) ls3) in
+  (all_placed cfg all_fixed (init cfg) ls1 1 = [1; 2; 3] /\ all_released cfg all_fixed (init cfg) ls1 1 = [2] /\
+   ready_of s1 1 = [] /\ unacked_of s1 1 = [1; 3]) /\
+  (all_placed cfg all_fixed (init cfg) ls2 1 = [1; 2; 3; 4] /\ all_released cfg all_fixed (init cfg) ls2 1 = [2; 1] /\
+   ready_of s2 1 = [3; 4] /\ unacked_of s2 1 = [] /\ queue_alive s2 1 = true) /\
+  (all_placed cfg all_fixed (init cfg) ls3 1 = [1; 2; 3; 4] /\ all_released cfg all_fixed (init cfg) ls3 1 = [2; 1; 3; 4] /\
+   held s3 1 = [] /\ queue_alive s3 1 = false).
 Proof. vm_compute. repeat split; reflexivity. Qed.
